@@ -5,17 +5,31 @@
 
 package writers
 
+// (round 6, area L) call records of the two Flush methods: how many calls, on which writer the most recent one.
+//@ ghost r6LBwFlushes int
+//@ ghost r6LBwFlushed *BoundaryBufferedWriter
+//@ ghostgroup r6LBwFlushes, r6LBwFlushed
+//@ ghost r6LSwFlushes int
+//@ ghost r6LSwFlushed *SpreadWriter
+//@ ghostgroup r6LSwFlushes, r6LSwFlushed
+
 //@ func NewBoundaryBufferedWriter(w io.Writer, size int) *BoundaryBufferedWriter
 //@   props C13
 //@   nochan
 //@   ensures[fresh-writer] result != nil && fresh(result) && result.bw != nil
 //@   modifies
 
+// (round 6, area L) Flushing the bufio writer hands the buffered bytes to the writer underneath - in nsqd a SpreadWriter, whose queue
+// grows by at most one packet (assumed contract of (*bufio.Writer).Flush inside this package, lib/trusted/r6L.spec; before, the call was
+// `benign` and the queue of the SpreadWriter provably - and wrongly - stayed empty across a flush).
 //@ func (b *BoundaryBufferedWriter) Flush() error
 //@   props C13
 //@   nochan
 //@   requires b != nil && b.bw != nil
-//@   modifies
+//@   ensures[backlog-grows-by-at-most-one] forall q *SpreadWriter :: {q.buf} old(len(q.buf)) <= len(q.buf) && len(q.buf) <= old(len(q.buf)) + 1 && len(q.buf) < 1000000000
+//@   modifies SpreadWriter.buf, elems([]byte), r6LBwFlushes
+//@   onreturn r6LBwFlushes := r6LBwFlushes + 1
+//@   onreturn r6LBwFlushed := b
 
 //@ func NewSpreadWriter(w io.Writer, interval time.Duration, exitCh chan int) *SpreadWriter
 //@   props C13
@@ -44,7 +58,10 @@ package writers
 //@   requires[interval-longer-than-the-backlog] len(s.buf) > 0 ==> s.interval >= len(s.buf)
 //@   ensures[buffer-emptied] len(s.buf) == 0
 //@   ensures[one-write-per-packet] wCalls == old(wCalls) + old(len(s.buf))
-//@   modifies s.buf, wN, wOut, wCalls, wErrs, wLastErr, wForeign, chanstore(int), chanstore(time.Time)
+//@   modifies s.buf, wN, wOut, wCalls, wErrs, wLastErr, wForeign, chanstore(int), chanstore(time.Time), r6LSwFlushes
+//   (round 6, area L) call records for the caller (statsdLoop: "the writer is flushed once per round")
+//@   onreturn r6LSwFlushes := r6LSwFlushes + 1
+//@   onreturn r6LSwFlushed := s
 //@   loop 0
 //@     invariant[buffer-kept] s.buf == old(s.buf) && s.w != nil && s.w == old(s.w) && ticker != nil
 //@     invariant[one-write-each] wCalls == old(wCalls) + rangeindex + 1 && rangeindex < len(s.buf)
